@@ -107,6 +107,8 @@ def template(draw):
     # under frame chosen with the `under` verb (the clone must start in the same outline as its original)
     hier = draw(st.sampled_from([None, None, {"under": None}, {"under": draw(st.integers(0, nfr - 1))},
                                  {"under": draw(st.integers(0, nfr - 1))}]))
+    if hier:
+        hier = dict(hier, re=draw(st.booleans()))
     # a second main framer that clones the same moot with an insular tag (its clone gets the same TAG as the first
     # insular clone of `main`, under another name): marks and other per-clone state must be kept per clone, not per tag
     second = draw(st.sampled_from([None, {"tb": draw(st.integers(1, 6)), "tb2": draw(st.integers(1, 6))}]))
@@ -128,6 +130,9 @@ def moot_lines(name, body, nested, sched, use_m=False, hier=None):
         if use_m:
             L.append("put 0 into m of me")
         L += ["recur", "inc top of framer with 1"]
+        if hier.get("re"):
+            # re-exit / re-enter actions of the enclosing frame (run at every transition between its under frames)
+            L += ["rexit", "inc top of framer with 10", "renter", "inc top of framer with 100", "exit", "inc top of framer with 1000"]
     for i, fr in enumerate(body):
         L.append("frame %s%d" % (name[0].upper(), i) + (" in %sT" % name[0].upper() if hier else ""))
         if fr.get("guard") is not None and not hier:
